@@ -3,7 +3,7 @@
 cd /verif
 for p in "$@"; do
   for i in 1 2; do
-    [ -f /tmp/wt_$p/_seed/patch$i.diff ] || { echo "$p-$i: no patch" >> build/seed_results.log; continue; }
+    [ -f ${SEED_DIR:-/tmp/wt}_$p/_seed/patch$i.diff ] || { echo "$p-$i: no patch" >> build/seed_results.log; continue; }
     r=$(tools/ingest_seed.py $p $i 2>&1 | python3 -c "
 import sys,json,re
 t=sys.stdin.read()
@@ -12,7 +12,7 @@ try:
     d=json.loads(m.group(0)); print('applies=%s builds=%s base=%s demoFailsWith=%s demoPassesWithout=%s %s' % (d.get('applies'),d.get('builds'),'180/180' in d.get('baseline',''),d.get('demo_fails_with_patch'),d.get('demo_passes_without_patch'),d.get('demo','')))
 except Exception as e: print('INGEST PROBLEM', t[-300:])
 ")
-    s=$(tools/seedrun.py seeded/$p-$i/patch.diff $p quick 2>&1 | grep exit= | head -1)
-    echo "$p-$i: $r || $s" >> build/seed_results.log
+    j=$((i + ${SEED_OFFSET:-0})); s=$(tools/seedrun.py seeded/$p-$j/patch.diff $p quick 2>&1 | grep exit= | head -1)
+    echo "$p-$j: $r || $s" >> build/seed_results.log
   done
 done
